@@ -594,3 +594,58 @@ Section Join.
       + destruct (wi_first _ _ H f H0) as (_ & B & _). exact B.
   Qed.
 End Join.
+
+(* ================================================================== 3. bridges and necessity *)
+(* the concurrent join reports one of the completions the denotation of when_all admits *)
+Lemma flat_map_map' {A B C} (f : A -> B) (g : B -> list C) l : flat_map g (map f l) = flat_map (fun x => g (f x)) l.
+Proof. induction l as [|a l IH]; [reflexivity|]. cbn [map flat_map]. now rewrite IH. Qed.
+
+Theorem join_in_den n cs (first : option nat) :
+  (first = None <-> forall u, u < n -> is_val (cs u) = true) ->
+  (forall f, first = Some f -> f < n /\ is_val (cs f) = false) ->
+  In (w_expected n cs first) (join_den (map cs (seq 0 n))).
+Proof.
+  intros Hnone Hsome. unfold join_den, w_expected.
+  destruct first as [f|].
+  - destruct (Hsome f eq_refl) as [Hf Hv].
+    assert (Hall : forallb is_val (map cs (seq 0 n)) = false).
+    { destruct (forallb is_val (map cs (seq 0 n))) eqn:E; [|reflexivity].
+      rewrite forallb_forall in E. rewrite <- Hv. symmetry. apply E. apply in_map. apply in_seq. lia. }
+    rewrite Hall. apply filter_In. split.
+    + destruct (cs f) eqn:Ec; try discriminate; rewrite <- Ec; apply in_map; apply in_seq; lia.
+    + destruct (cs f); try discriminate; reflexivity.
+  - assert (Hall : forallb is_val (map cs (seq 0 n)) = true).
+    { apply forallb_forall. intros c Hc. apply in_map_iff in Hc. destruct Hc as (u & <- & Hu).
+      apply in_seq in Hu. apply (proj1 Hnone eq_refl). lia. }
+    rewrite Hall. left. now rewrite flat_map_map'.
+Qed.
+
+(* the re-check of predecessor_done under the lock is necessary: without it a consumer that has
+   passed the first test while the predecessor completes stores a continuation nobody runs *)
+Definition h_tstep_norecheck (k : hkind) (c : completion) (o : unit) (t : nat) (g : hs) (l : hpc) : hs * hpc :=
+  match t, l with
+  | S _, C2 => match h_lock g with Some _ => (g, C2) | None => (set_lock g (Some t), C3) end
+  | _, _ => h_tstep k c o t g l
+  end.
+
+Lemma recheck_needed :
+  exists sched, let st := run (h_tstep_norecheck HSplit (CVal [1%N])) sched (h_init HSplit, h_locals) in
+    snd st 0 = PEnd /\ snd st 1 = CEnd /\ h_log (fst st) = [] /\ h_conts (fst st) = [1].
+Proof.
+  exists (map (fun t => (t, tt)) [1; 1; 0; 0; 0; 0; 1; 1]). vm_compute. repeat split.
+Qed.
+
+(* so is the predecessor's (empty) critical section: without it the predecessor can read the
+   continuations while a consumer that saw predecessor_done = false is still inside its own *)
+Definition h_tstep_nopredlock (k : hkind) (c : completion) (o : unit) (t : nat) (g : hs) (l : hpc) : hs * hpc :=
+  match t, l with
+  | O, P2 => (g, P3)
+  | _, _ => h_tstep k c o t g l
+  end.
+
+Lemma pred_lock_needed :
+  exists sched, let st := run (h_tstep_nopredlock HSplit (CVal [1%N])) sched (h_init HSplit, h_locals) in
+    snd st 0 = PEnd /\ snd st 1 = CEnd /\ h_log (fst st) = [] /\ h_conts (fst st) = [1].
+Proof.
+  exists (map (fun t => (t, tt)) [1; 1; 1; 0; 0; 0; 0; 1]). vm_compute. repeat split.
+Qed.
